@@ -1,23 +1,39 @@
-"""Per-property plans: which stages bin/check runs for the quick and the thorough tier."""
+"""Per-property plans: which stages bin/check runs for the quick and the thorough tier.
+Each property has a file bin/plans.d/<id>.py defining PLAN (and CLAIM for MANIFEST.json); helpers tape()/replays()/custom()
+are injected into its namespace."""
+import glob
+import os
 
 
 def tape(binary, cases, size=300, mode="rc", **kw):
+    """Stage running a tape-driven harness: mode rc = rapidcheck random tapes (cases split over workers), ex = bounded-exhaustive."""
     d = {"kind": "tape", "name": "%s:%s" % (binary, mode), "binary": binary, "cases": cases, "size": size, "mode": mode}
     d.update(kw)
     return d
 
 
 def replays(binary, **kw):
+    """Stage replaying every saved replays/<id>/<prefix>*.tape (seconds-long regression tier)."""
     d = {"kind": "replays", "name": "replays:" + binary, "binary": binary}
     d.update(kw)
     return d
 
 
-PLANS = {
-    "C02": {
-        "level": "exploration",
-        "quick": [replays("C02"), tape("C02", 20000, size=400)],
-        "thorough": [replays("C02"), tape("C02", 500000, size=500)],
-        "class_floors": {"class-B": 0.1, "reset": 0.05, "import": 0.05, "multi-map-connection": 0.02, "encapsulation-depth>=2": 0.02},
-    },
-}
+def custom(name, fn, **kw):
+    """Stage implemented by a python callable fn(runner, stage) (libFuzzer campaigns, multi-process fault drivers...)."""
+    d = {"kind": "custom", "name": name, "fn": fn}
+    d.update(kw)
+    return d
+
+
+PLANS = {}
+CLAIMS = {}
+_here = os.path.dirname(os.path.abspath(__file__))
+for _f in sorted(glob.glob(os.path.join(_here, "plans.d", "C*.py"))):
+    _ns = {"tape": tape, "replays": replays, "custom": custom, "__file__": _f}
+    exec(compile(open(_f).read(), _f, "exec"), _ns)
+    _id = os.path.basename(_f)[:-3]
+    if "PLAN" in _ns:
+        PLANS[_id] = _ns["PLAN"]
+    if "CLAIM" in _ns:
+        CLAIMS[_id] = _ns["CLAIM"]
